@@ -425,7 +425,8 @@ type luaV struct {
 	op string // param lit pkg glob fnref sel idx slice addr deref un bin comp kv call mcall vcall fcall prim tup assert is has each key err zero func opaque
 	s  string
 	k  []*luaV
-	st bool // known to be a *lua.LState
+	st bool      // known to be a *lua.LState
+	at token.Pos // mcall on a state: the call site in the source (never printed; identifies the site through inlined helpers)
 }
 
 func luaLit(s string) *luaV { return &luaV{op: "lit", s: s} }
@@ -1159,7 +1160,7 @@ func (ev *luaEval) call(p *luaPath, ce *ast.CallExpr, deferred bool) []luaRes {
 			switch {
 			case recv.st:
 				out = append(out, finish(func(a []*luaV) (*luaV, bool) {
-					return &luaV{op: "mcall", s: name, k: append([]*luaV{recv}, a...)}, true
+					return &luaV{op: "mcall", s: name, k: append([]*luaV{recv}, a...), at: ce.Pos()}, true
 				}, ce.Args, rr.p)...)
 			case ev.pk.role[name] != "" && !ast.IsExported(name):
 				role := ev.pk.role[name]
@@ -1922,6 +1923,7 @@ type luaListener struct {
 	protect, deferPut bool
 	gets, puts        int
 	paths             []luaOut
+	sites             map[token.Pos]bool // the CallByParam call sites (source positions) its paths go through, helpers looked through
 }
 
 func luaUnq(s string) string {
@@ -1985,7 +1987,7 @@ func luaIsAddListener(ce *ast.CallExpr) bool {
 }
 
 func (pk *luaPkg) listenerFacts(slot, event string, reg ast.Expr) luaListener {
-	l := luaListener{slot: slot, event: event, fn: "?"}
+	l := luaListener{slot: slot, event: event, fn: "?", sites: map[token.Pos]bool{}}
 	se, ok := reg.(*ast.SelectorExpr)
 	if !ok {
 		l.paths = []luaOut{{ret: "?listener-not-a-method-value"}}
@@ -2029,6 +2031,7 @@ func (pk *luaPkg) listenerFacts(slot, event string, reg ast.Expr) luaListener {
 			}
 			if v.op == "mcall" && v.s == "CallByParam" && v.k[0].st {
 				calls++
+				l.sites[v.at] = true
 				prot := false
 				if len(v.k) >= 2 && v.k[1].op == "comp" && v.k[1].s == "gopher-lua.P" {
 					for _, kv := range v.k[1].k {
@@ -2346,6 +2349,9 @@ structure Listener where
 	}
 	g.def("listeners", "List Listener", "[\n  "+strings.Join(ll, ",\n  ")+"]", "every AddListener call of the package, sorted by slot")
 	// ---- Lua entry points that are not protected
+	// A CallByParam site counts once per listener whose paths go through it (a helper shared by two listeners is two Lua
+	// entries, exactly as if it were written out in both) and once when NO listener reaches it (an entry point outside the
+	// listeners).  With `listeners.length` this says: every listener has one site and there is no other.
 	unprotected := []string{}
 	sites := 0
 	for _, f := range pk.files {
@@ -2360,7 +2366,16 @@ structure Listener where
 			}
 			switch se.Sel.Name {
 			case "CallByParam":
-				sites++
+				users := 0
+				for _, l := range ls {
+					if l.sites[ce.Pos()] {
+						users++
+					}
+				}
+				if users == 0 {
+					users = 1
+				}
+				sites += users
 				okp := false
 				if len(ce.Args) > 0 {
 					if cl, ok := ce.Args[0].(*ast.CompositeLit); ok {
@@ -2386,7 +2401,7 @@ structure Listener where
 	}
 	sort.Strings(unprotected)
 	g.def("unprotectedCalls", "List String", strList(unprotected), "Lua entry points anywhere in the package that are not protected calls (CallByParam without a literal Protect: true, Call, DoString, DoFile, Resume)")
-	g.def("callByParamSites", "Nat", strconv.Itoa(sites), "number of CallByParam call sites in the package")
+	g.def("callByParamSites", "Nat", strconv.Itoa(sites), "Lua entries of the package: each CallByParam call site once per listener whose paths go through it (helpers looked through), and once if no listener reaches it")
 	// ---- Lua names
 	setters, getters := pk.indexTables()
 	names := [][2]string{}
